@@ -181,9 +181,36 @@ def setup(R):
                                   "go1.26 toolchain, testing/synctest virtual time"]
 
 
+def link_c18(R):
+    """Optional: instantiate daemon_keeps_mirror with C18's RIB model (coq/Dv) -> hypothesis-free theorem.
+    A failure here (e.g. coq/Dv being edited) is recorded as a note, never as a violation of C19."""
+    info = R.coverage.setdefault("linked_with_C18", dict(built=False))
+    hits = vlib.forbidden_scan(["DvFibLink"])
+    if hits:
+        R.proof_problems.append("forbidden token(s) in coq/DvFibLink: " + "; ".join(hits[:3]))
+        return
+    try:
+        ok, log = vlib.coq_make("Dv", timeout=1500)
+        if not ok:
+            R.notes.append("optional C18 link skipped: coq/Dv does not build at the moment"); return
+        ok, log = vlib.coq_make("DvFibLink", timeout=600)
+        if not ok:
+            R.notes.append("optional C18 link skipped: coq/DvFibLink does not build against the current coq/Dv: " + log.strip()[-200:]); return
+        pr = vlib.coq_props("DvFibLink", "C19link")
+    except Exception as e:
+        R.notes.append("optional C18 link skipped: %r" % (e,)); return
+    if pr["ok"] and pr["discharged"]:
+        info.update(built=True, theorems=pr["obligations"], print_assumptions={k: (v or "Closed under the global context") for k, v in pr["assumptions"].items()})
+        R.coverage["obligations"] += len(pr["obligations"]); R.coverage["discharged"] += len(pr["discharged"])
+        R.coverage.setdefault("theorems", []).extend(pr["obligations"])
+    else:
+        R.notes.append("optional C18 link: Props_C19link.v did not check: " + pr["log"].strip()[-200:])
+
+
 def build(R):
     translate(R)
-    R.prove(FAM)
+    if R.prove(FAM):
+        link_c18(R)
     if not R.quick:
         R.coqchk(FAM, ["DvFib.PfxLogProofs", "DvFib.PfxLogLive", "DvFib.ConstFacts", "DvFib.DvFibProofs", "DvFib.DvDaemonProofs"])
     ok, runner, log = vlib.extract_build(FAM)
